@@ -162,8 +162,23 @@ pub fn check_case(c: &Case) -> CaseResult {
             };
             shift_func = Some(a.num_imported_funcs() as u32);
         }
+        "add-func" | "add-small-func" => {
+            // a whole new function through the builder (no input locations): larger than every small
+            // parsed function, so that the size sort emits it in front of them - or a tiny one that goes last
+            let n = if edit == "add-func" { 12 } else { 1 };
+            let mut fb = FunctionBuilder::new(&mut m.types, &[], &[]);
+            {
+                let mut body = fb.func_body();
+                for k in 0..n {
+                    body.i32_const(91000 + k).drop();
+                }
+            }
+            let f = fb.finish(vec![], &mut m.funcs);
+            m.exports.add("added-by-edit", f);
+        }
         _ => {}
     }
+    let added = edit == "add-func" || edit == "add-small-func";
     let seen = Arc::new(Mutex::new(Seen::default()));
     m.customs.add(Spy(seen.clone()));
     let out = match emit(&mut m) {
@@ -175,7 +190,7 @@ pub fn check_case(c: &Case) -> CaseResult {
         Ok(b) => b,
         Err(_) => return r,
     };
-    let maps = match iso(&reference, &b, if edit == "gc" { IsoMode::Gc } else { IsoMode::RoundTrip }) {
+    let maps = match iso(&reference, &b, if edit == "gc" { IsoMode::Gc } else if added { IsoMode::Extended } else { IsoMode::RoundTrip }) {
         Ok(m) => m,
         Err(e) => {
             r.note = Some(format!("C11: {}:{} skipped, input/output not isomorphic ({})", c.family, c.coords, e[0].sig));
@@ -299,6 +314,11 @@ pub fn run(args: &Args) -> i32 {
                 continue;
             }
             cases.push(b.clone().with(json!({"edit": e})));
+            if b.family != "body" && b.family != "fixtures" && e == "none" {
+                for e2 in ["add-func", "add-small-func"] {
+                    cases.push(b.clone().with(json!({"edit": e2})));
+                }
+            }
             if b.family != "body" && b.family != "fixtures" {
                 for how in ["dwarf", "dwarf-input", "both"] {
                     cases.push(b.clone().with(json!({"edit": e, "how": how})));
@@ -306,7 +326,7 @@ pub fn run(args: &Args) -> i32 {
             }
         }
     }
-    ev.rule = "every member of body(L)/funcs/leb/locals/fixtures x {unchanged, two instructions inserted at the start of the first function, gc} with preserve_code_transform(true), and for the generated families also with generate_dwarf(true) (which implies it) with and without DWARF in the input: a spy custom section copies the \
+    ev.rule = "every member of body(L)/funcs/leb/locals/fixtures x {unchanged, two instructions inserted at the start of the first function, gc, a whole function added through the builder (one that is emitted first, one that is emitted last)} with preserve_code_transform(true), and for the generated families also with generate_dwarf(true) (which implies it) with and without DWARF in the input: a spy custom section copies the \
         CodeTransform; every (input offset, output offset) pair must name the first byte of an input operator and the first byte of the corresponding output operator (correspondence from iso; for the insert edit \
         against an expected module built by byte surgery); every surviving operator in exactly one pair; function ranges = code entries incl. size LEB; code_section_start = first byte of the code section contents. \
         non-trivial = walrus renumbered or elided something"
